@@ -325,11 +325,11 @@ def run_voronoi(rep, tier, layout, drop_at=None, L=None, scale="free", free_site
     nval = [0]
     o4_timeout = 15000 if tier == "quick" else 120000
 
-    def decide(ctx, label, negated, W, key, timeout_ms, extra=()):
+    def decide(ctx, label, negated, W, key, timeout_ms, extra=(), full_pc=False):
         """One obligation, decided under the class assumptions and the branch decisions that precede the angular sort (those of
         the sort only select the starting vertex, which no obligation depends on); identical queries of other paths are reused."""
         rep.obligations += 1
-        npc = ctx.notes.get("pc_at_sort", len(ctx.pc))
+        npc = len(ctx.pc) if full_pc else ctx.notes.get("pc_at_sort", len(ctx.pc))      # O5 is about a decision taken on this very path
         qkey = (z3.And(*ctx.pc[:npc]).sexpr() if npc else "", negated.sexpr())
         if qkey not in cache:
             cache[qkey] = ctx.query_assumptions_only(negated, *extra, timeout_ms=timeout_ms, pc_prefix=npc)
@@ -391,7 +391,7 @@ def run_voronoi(rep, tier, layout, drop_at=None, L=None, scale="free", free_site
             if tuple(id(v) for v in poly[:, 0]) not in clipped:
                 cs_ = box.corners
                 outside = z3.Or(*[(_orient(cs_[e], cs_[(e + 1) % len(cs_)], w) < 0).e for w in poly for e in range(len(cs_))])
-                decide(ctx, f"region {i}: not intersected with the boundary region although a vertex can lie outside it (O5)", outside, W, "voronoi-region-not-clipped", 20000)
+                decide(ctx, f"region {i}: not intersected with the boundary region although a vertex can lie outside it (O5)", outside, W, "voronoi-region-not-clipped", 20000, full_pc=True)
             else:
                 rep.obligations += 1
                 rep.discharged += 1
